@@ -16,10 +16,10 @@ Definition C08_full : Prop := forall (compact : bool) (cs : list (Z * cmd)),
   increasing 0 cs -> map_trace compact cs m_init = spec_trace cs s_init.
 
 (* (1) PARTIAL: proved for sequences made of the string (KV), hash and set commands — writes SET SETNX GETSET
-   INCR INCRBY APPEND SETRANGE DEL, HSET HSETNX HMSET HDEL HINCRBY HCLEAR, SADD SREM SCLEAR and all their reads
+   INCR INCRBY APPEND SETRANGE DEL, HSET HSETNX HMSET HDEL HINCRBY HCLEAR, SADD SREM SPOP SCLEAR and all their reads
    (GET MGET GETRANGE STRLEN EXISTS, HGET HMGET HEXISTS HLEN HGETALL HKEYS HVALS HKEYEXIST, SCARD SISMEMBER
    SMEMBERS SRANDMEMBER SKEYEXIST): equal replies command by command.
-   Missing for the full statement: SPOP, the sorted-set commands and the list commands (for those the
+   Missing for the full statement: the sorted-set commands and the list commands (for those the
    representation invariant of C09 is proved and the three-way comparison runs on every check, but not the
    refinement), and SETRANGE with a negative offset (a Go slice panic, outside the generated inputs). *)
 Theorem C08_kv_hash_set_partial : forall (compact : bool) (cs : list (Z * cmd)),
